@@ -364,6 +364,81 @@ def gen_stage_b(c, cfgs, issued, scale):
     return lines, desc
 
 
+def le(n, k):
+    return (n % (1 << (8 * k))).to_bytes(k, "little")
+
+
+def gen_keyed(c, hbin, cfgs, scale):
+    """Cookies built WITH the key (valid MAC over bodies the server never produced): they reach the checks behind the
+    MAC (short plaintext, size checks, inner-length bound, expiry) that no mutation of an issued cookie reaches.
+    Acceptance of these is not a forgery (the judge for issued cookies is not applied); the expected outcome is computed
+    here independently of the model.  Returns lines, desc (desc['expect'] = expected harness answer)."""
+    rng = c.rng
+    plan = []      # (ci, kind, body or frame, now, expect)
+    now = 5000
+    for ci, cfg in enumerate(cfgs):
+        e = cfg.effective()
+        if e[0] == "hmac":
+            for ln in list(range(0, 10)) + [20]:
+                body = rbytes(rng, ln)
+                plan.append((ci, "hmac", body, now))
+            for t in (now - 1, now, now + 1, I64MAX, I64MIN, -1):
+                plan.append((ci, "hmac", le(t, 8) + rbytes(rng, rng.randrange(0, 5)), now))
+        else:
+            for ln in (0, 15, 16, 17, 31, 33, 48 + 7):
+                plan.append((ci, "aesraw", rbytes(rng, ln), now))
+            for nblocks in (2, 3, 4):
+                room = nblocks * 16 - 20
+                for ilen in sorted({0, 1, 7, 8, 9, room - 1, room, room + 1, room + 16, 0xffffffff, 0x80000000, nblocks * 16, nblocks * 16 - 16}):
+                    if ilen < 0:
+                        continue
+                    t = rng.choice((now, now + 100, now - 1))
+                    content = (le(t, 8) + rbytes(rng, room))[:room]
+                    frame = rbytes(rng, 16) + le(ilen, 4) + content
+                    plan.append((ci, "aesframe", frame, now))
+    # ask the real primitives for CBC texts and tags
+    q1, idx1 = [], []
+    for k, (ci, kind, data, now_) in enumerate(plan):
+        if kind == "aesframe":
+            e = cfgs[ci].effective()
+            q1.append(f"cbcenc aes{e[1]} {hexs(e[2])} {hexs(rbytes(rng, 16))} {hexs(data)}")
+            idx1.append(k)
+    rc, a1, err = c.run_lines(hbin, q1)
+    bodies = {}
+    for k, a in zip(idx1, a1):
+        bodies[k] = unhex(a)
+    q2 = []
+    for k, (ci, kind, data, now_) in enumerate(plan):
+        e = cfgs[ci].effective()
+        body = bodies.get(k, data)
+        q2.append(f"mac {e[1]} {hexs(e[2])} {hexs(body)}" if e[0] == "hmac" else f"mac {e[3]} {hexs(e[4])} {hexs(body)}")
+    rc, a2, err = c.run_lines(hbin, q2)
+    lines, desc = [], []
+    oid = {}
+    for k, ((ci, kind, data, now_), tag) in enumerate(zip(plan, a2)):
+        if ci not in oid or (cfgs[ci].is_aes and k % 8 == 0):
+            oid[ci] = f"k{ci}_{k}"
+            lines.append(cfgs[ci].create(oid[ci])); desc.append({"op": "create", "cfg": ci})
+        body = bodies.get(k, data)
+        cookie = b"C" + b64e(body + unhex(tag))
+        # expected outcome, from the wire format alone
+        if kind == "hmac":
+            plain = data
+        elif kind == "aesraw":
+            plain = None
+        else:
+            ilen = int.from_bytes(data[16:20], "little")
+            plain = data[20:20 + ilen] if ilen <= len(data) - 20 else None
+        if plain is None or len(plain) < 8:
+            exp = "fail cleared=1"
+        else:
+            t = int.from_bytes(plain[:8], "little", signed=True)
+            exp = "fail cleared=1" if t < now_ else f"ok {t} {hexs(plain[8:])} cleared=0"
+        lines.append(f"load {oid[ci]} {now_} {hexs(cookie)}")
+        desc.append({"op": "load", "cfg": ci, "now": now_, "cookie": cookie, "mut": "keyed-" + kind, "expect": exp})
+    return lines, desc
+
+
 def gen_stage_b_raw(c, cfgs, ciphers, scale):
     """raw encryptor::decrypt on mutated cipher texts (through the encryptor objects, no cookie layer)"""
     rng = c.rng
@@ -580,6 +655,37 @@ def main():
     ib, mb = run_stage("load-mutations", lb, db)
     lr, dr = gen_stage_b_raw(c, cfgs, ciphers, scale)
     ir, mr = run_stage("decrypt-mutations", lr, dr)
+    lk, dk = gen_keyed(c, hbin, cfgs, scale)
+    ik, mk_ = run_stage("keyed-malformed", lk, dk)
+    nk = 0
+    for l, d, o in zip(lk, dk, ik):
+        if d and d["op"] == "load":
+            nk += 1
+            if o != d["expect"]:
+                bad.append(("cookie with a valid MAC over a malformed / short / expired body: implementation answer differs from the wire format's meaning "
+                            "(expected " + d["expect"][:80] + ")",
+                            {"lines": [cfgs[d["cfg"]].create(l.split()[1]), l], "impl": o, "expected": d["expect"], "mutation": d["mut"]}))
+    c.extra_cov["keyed_malformed_loads"] = nk
+    # configuration refusals judged directly on the implementation's answers (independent of the model)
+    for l, d, o in zip(la, da, ia):
+        if not d or d["op"] != "create":
+            continue
+        w = l.split()
+        must_refuse = None
+        if w[0] == "hmac" and len(unhex(w[3])) < 16:
+            must_refuse = "hmac key shorter than 16 bytes"
+        if w[0] == "pool":
+            enc, mac, cbc = w[2], w[3], w[4]
+            if enc == "-" and mac == "-" and cbc != "-":
+                must_refuse = "cipher without MAC"
+            if enc == "-" and mac == "-" and cbc == "-":
+                must_refuse = "client-side sessions without any method"
+            if (enc == "hmac" or enc.startswith("hmac-")) and len(unhex(w[5])) < 16 and mac == "-" and cbc == "-":
+                must_refuse = "hmac key shorter than 16 bytes"
+            if enc == "-" and cbc == "-" and mac != "-" and len(unhex(w[6])) < 16:
+                must_refuse = "hmac key shorter than 16 bytes"
+        if must_refuse and not o.startswith("refused"):
+            bad.append(("configuration that must be refused was accepted: " + must_refuse, {"lines": [l], "impl": o}))
 
     # ---------------- judge on the implementation's answers
     jcase = []
